@@ -34,6 +34,13 @@ if [ "$prop" = C04 ]; then
   [ $r -eq 1 ] && rc=1
   exit $rc
 fi
+if [ "$prop" = C08 ]; then
+  # as ./check C08: baton search, then the ThreadSanitizer tier on the C library
+  rc=0; "$work/target/release/b3sim" run --prop C08 --tier "$tier" --part sim "$@" || rc=$?
+  [ $rc -ne 0 ] && exit $rc
+  python3 /verif/tools/tsan_tier.py C08 "${VERIF_SEED:-1}" "$tier" --repo "$repo"
+  exit $?
+fi
 if [ "$prop" = C07 ]; then
   # as ./check C07: guard-page families on the default build, then the ASan/UBSan replay tier (the pure part is skipped here)
   rc=0; "$work/target/release/b3sim" run --prop C07 --tier "$tier" --part default "$@" || rc=$?
